@@ -4,6 +4,7 @@
 #include <vector>
 std::string c17_pool_case(std::vector<std::string> const &tok);      // deterministic scripted pool case
 std::string c17_pool_stress(std::vector<std::string> const &tok);    // multi-threaded pool stress (oracle only)
+std::string c17_pool_stop_stress(std::vector<std::string> const &tok); // stop() racing with post()/cancel() (oracle only)
 std::string c17_loop_stress(std::vector<std::string> const &tok);    // multi-threaded loop stress (oracle only)
 // interposition switch: when false the interposed libc entry points pass straight through
 extern volatile bool c17_virtual;
